@@ -14,9 +14,12 @@
       control flow of `standard_readable_error_for_typedpy_exception` (fail-fast / collect-all,
       JSON list decoding, nested expansion, the one place where it can raise).
       Since /repo 4d96101 the three message regexes are compiled with `re.DOTALL` (`.` matches a
-      newline, so `(.*)$` takes the whole rest) and their field group is `[\w.]+`; `\w` of a `str`
-      pattern is `str.isalnum()` or `_`, supplied as the oracle `W` (only its ASCII part and
-      `W ':' = false` are ever assumed).  `_expected_class_pattern` is NOT DOTALL.
+      newline, so `(.*)$` takes the whole rest); since /repo <FIXID3> their field group is
+      `(?:[\w.]|[^\x00-\x7f\s])+`: ASCII letters, digits, `_`, `.`, and EVERY non-ASCII character that
+      is not white space (`pyFieldWord`, fully modelled — before, `\w` = `str.isalnum()` or `_` was an
+      oracle and identifiers with combining marks / vowel signs lost their field).  Theorems stay
+      parametric in `W` (only its ASCII part and `W ':' = false` are ever assumed).
+      `_expected_class_pattern` is NOT DOTALL.
       Since /repo 9c7ef9a no check of a flat field raises a foreign exception without a path.
 
   Texts are `List Char` (Python `str` = sequence of code points).  Value and problem *texts* are
@@ -117,6 +120,10 @@ def isPySpace (c : Char) : Bool :=
   (9 ≤ n && n ≤ 13) || (28 ≤ n && n ≤ 32) || n == 0x85 || n == 0xA0 || n == 0x1680
   || (0x2000 ≤ n && n ≤ 0x200A) || n == 0x2028 || n == 0x2029 || n == 0x202F || n == 0x205F
   || n == 0x3000
+
+/-- the field group of errors.py since /repo <FIXID3>, without `_` and `.` (added by `isFieldChar`):
+    ASCII letters and digits, and every non-ASCII character that is not white space -/
+def pyFieldWord : Word := fun c => c.isAlphanum || (decide (c.toNat > 127) && !isPySpace c)
 
 /-- regex 1 after `<field>: `: `Got ([^;]*); (.*)$` (DOTALL) ↦ (value, problem) -/
 def m1tail (rest : Text) : Option (Text × Text) :=
